@@ -1,4 +1,9 @@
+import os
 from common import Rng
+
+# the boundary values / branches of the anchored functions that the seed-independent boundary suite reaches
+# (keys of the driver mode `stats`, lean/Rbgp/C16/Stats.lean); a key that stays at 0 in a run is a coverage gap
+BUCKETS = open(os.path.join(os.path.dirname(os.path.abspath(__file__)), "c16_buckets.txt")).read().split()
 
 CONFIG = dict(
     claimed=True,
@@ -75,6 +80,8 @@ CONFIG = dict(
                    "no-session", "(api ok)", "(api notfound)", "aborted", "rr-client", "rs-client", "confed", "ibgp", "ebgp",
                    "(ok t)", "(ok f)", "(panic)", "(bad-case)", "(enh ", "(gr (", "(llgr (", " t t)", " t f)", " f t)",
                    "(codec () ", "t t t)", "(65537 f f t)", "(65664 f f t)", "f f t)"],
+    oracle_stats=True,
+    expect_judged=BUCKETS,
     trusted_base=["model Rbgp/Accept/Model.lean of daemon/src/event/mod.rs (accept_connection, add_peer, force_down, "
                   "apply_disconnect + tail of PeerSession::run, negotiate_gr/llgr, peer_role), event/peer.rs (build, "
                   "build_local_cap, apply_peer_group), event/grpc.rs (five handlers), fsm.rs (effective send-max), "
@@ -123,14 +130,14 @@ def gen_cap(r, fams):
     if k == "extmsg":
         return "extmsg"
     if k == "as4":
-        return "(as4 %d)" % r.pick([65001, 65002, 4200000001])
+        return "(as4 %d)" % r.pick([65001, 65002, 4200000001, 0, 23456, 65535, 65536, 4294967295])
     if k == "gr":
         n = r.pick([0, 1, 1, 2, 3])
-        return "(gr %d %d (%s))" % (r.pick([0, 4, 8, 12, 255]), r.pick([0, 90, 120, 4095]),
+        return "(gr %d %d (%s))" % (r.pick([0, 4, 8, 12, 255, 3, 5]), r.pick([0, 1, 90, 120, 4094, 4095]),
                                     pairs([(r.pick(fams), r.pick([0, 128])) for _ in range(n)]))
     if k == "llgr":
         n = r.pick([0, 1, 1, 2, 3])
-        return "(llgr %s)" % " ".join("(%d %d %d)" % (r.pick(fams), r.pick([0, 128]), r.pick([0, 0, 5, 600, 16777215]))
+        return "(llgr %s)" % " ".join("(%d %d %d)" % (r.pick(fams), r.pick([0, 128]), r.pick([0, 0, 1, 5, 600, 16777214, 16777215]))
                                       for _ in range(n))
     if k == "unk":
         return "(unk %d x%s)" % (r.pick([3, 66, 128, 255]), r.pick(["", "00", "0102"]))
@@ -146,9 +153,12 @@ def gen_caps(r, fams):
     return "(" + " ".join(caps) + ")"
 
 
+SM_VALUES = [1, 2, 4, 255, 1, 2, 0, 256]
+
+
 def gen_sm(r, fams):
     n = r.pick([0, 1, 1, 2, 3])
-    return "(sm %s)" % pairs([(r.pick(fams), r.pick([1, 2, 4, 255])) for _ in range(n)])
+    return "(sm %s)" % pairs([(r.pick(fams), r.pick(SM_VALUES)) for _ in range(n)])
 
 
 def gen_neg(r):
@@ -201,7 +211,7 @@ def gen_neg_systematic(r):
                 ap.append((f, m))
         enh = [(f, 2 if r.chance(9, 10) else r.pick([1, 3])) for f in fams if has(f, "enh")]
         grf = [(f, r.pick([0, 128])) for f in fams if has(f, "gr")]
-        ll = [(f, r.pick([0, 128]), r.pick([0, 5, 600, 600])) for f in fams if has(f, "llgr")]
+        ll = [(f, r.pick([0, 128]), r.pick([0, 1, 5, 600, 600])) for f in fams if has(f, "llgr")]
         def emit(name, tuples, fmt):
             if not tuples:
                 return
@@ -237,7 +247,8 @@ def gen_contains(r):
     v6 = r.chance(1, 4)
     n = 16 if v6 else 4
     base = [r.pick([0, 10, 127, 255, 1, 128]) for _ in range(n)]
-    mask = r.weighted([(r.below(8 * n + 1), 12), (8 * n, 2), (0, 1), (8 * n + 1 + r.below(8), 2), (r.pick([40, 64, 129, 136, 200, 255]), 1)])
+    mask = r.weighted([(r.below(8 * n + 1), 10), (8 * n, 2), (0, 1), (8 * n + 1 + r.below(8), 2), (r.pick([40, 64, 129, 136, 200, 255]), 1),
+                       (r.pick([0, 1, 7, 8, 9, 8 * n - 9, 8 * n - 8, 8 * n - 7, 8 * n - 1, 8 * n, 8 * n + 1]), 4)])
     addr = list(base)
     # flip a bit around the mask boundary, or anywhere
     for _ in range(r.pick([0, 1, 1, 2])):
@@ -265,22 +276,30 @@ def ip(a):
     return "(ip %s)" % hexb(a)
 
 
+SRPOLICY = 65609          # IPv4 SR Policy: the one IPv4-AFI family left out of extended next hop
+PEER_FAMS = [IPV4, IPV6, IPV4, VPN4, SRPOLICY, IPV6]
+BIG_AS = 4200000001
+AS_EDGE = [65535, 65536, 23456, BIG_AS]      # last 2-octet AS, first 4-octet AS, AS_TRANS, a large 4-octet AS
+HOLDS = [180, 180, 180, 0, 30, 90, 3, 65535]
+CLUSTERS = [16909060, 1, 0, 4294967295]
+
+
 def gen_fams(r, tag="fams"):
-    n = r.pick([0, 0, 1, 2, 2, 3])
-    return "(%s %s)" % (tag, pairs([(r.pick([IPV4, IPV6, IPV4, VPN4]), r.pick([0, 0, 1, 2, 3])) for _ in range(n)]))
+    n = r.pick([0, 0, 1, 2, 2, 3, 4])
+    return "(%s %s)" % (tag, pairs([(r.pick(PEER_FAMS), r.pick([0, 0, 1, 2, 3])) for _ in range(n)]))
 
 
 def gen_gr(r):
     if r.chance(3, 5):
         return "none"
-    return "(some (%d %s (%s)))" % (r.pick([90, 120]), r.pick(["t", "f"]),
-                                    " ".join(str(r.pick(FAMS2)) for _ in range(r.pick([1, 2]))))
+    return "(some (%d %s (%s)))" % (r.pick([90, 120, 0, 4095, 1]), r.pick(["t", "f"]),
+                                    " ".join(str(r.pick(FAMS2 + FAMS2 + [VPN4, SRPOLICY])) for _ in range(r.pick([0, 1, 1, 2, 2, 3]))))
 
 
 def gen_llgr(r):
     if r.chance(3, 5):
         return "none"
-    return "(some (%s))" % pairs([(r.pick(FAMS2), r.pick([0, 600, 3600])) for _ in range(r.pick([1, 2]))])
+    return "(some (%s))" % pairs([(r.pick(FAMS2 + FAMS2 + [VPN4]), r.pick([0, 600, 3600, 1, 16777215])) for _ in range(r.pick([0, 1, 1, 2, 2, 3]))])
 
 
 def b(r, num=1, den=4):
@@ -304,10 +323,10 @@ def gen_group(r, name):
     """returns (text, [(prefix octets, mask)], expected AS)"""
     pool = NETS if r.chance(1, 7) else NET_POOLS.get(name, NETS)
     nets = [r.pick(pool) for _ in range(r.pick([0, 1, 1, 2, 3]))]
-    asn = r.pick([0, 65001, 65002, 65003, 65009])
+    asn = r.pick([0, 65001, 65002, 65003, 65009, 65001, 65002] + AS_EDGE)
     text = "(group %s %d %d %s %s %s %s %s %s %s %s %s (nets %s))" % (
-        name, asn, r.pick([0, 0, 0, 65010]), opt_num(r, [0, 30, 90]), b(r), b(r), b(r),
-        opt_num(r, [16909060], 2), gen_fams(r), gen_sm(r, [IPV4, IPV6]), gen_gr(r), gen_llgr(r),
+        name, asn, r.pick([0, 0, 0, 0, 65010, 65001, 65002, BIG_AS]), opt_num(r, [0, 30, 90, 3, 180, 65535]), b(r), b(r), b(r),
+        opt_num(r, CLUSTERS, 3), gen_fams(r), gen_sm(r, [IPV4, IPV6, VPN4]), gen_gr(r), gen_llgr(r),
         " ".join("(net %s %d)" % (hexb(n), m) for n, m in nets))
     return text, nets, asn
 
@@ -321,13 +340,14 @@ def gen_pol(r):
 
 def gen_peer(r, addr, groups):
     grp = r.pick([None, None] + groups + ["gx"])
-    exp = r.pick([0, 0, 65001, 65002, 65003, 65009, 65000])
+    exp = r.pick([0, 0, 65001, 65002, 65003, 65009, 65000, 65001, 65002, 65010] + AS_EDGE)
     down = b(r, 1, 5)
     pol = gen_pol(r)
     text = "(peer %s %d %d %d %s %s %s %s %s %s %s (pl %s) %s %s %s %s)" % (
-        ip(addr), exp, r.pick([0, 0, 0, 65001, 65010]),
-        r.pick([180, 180, 180, 0, 30, 90]), b(r), b(r, 1, 6), b(r), opt_num(r, [16909060, 1], 2), down,
-        gen_fams(r), gen_sm(r, [IPV4, IPV6]), pairs([(r.pick(FAMS2), r.pick([0, 10, 1000])) for _ in range(r.pick([0, 0, 1, 2]))]),
+        ip(addr), exp, r.pick([0, 0, 0, 0, 65001, 65002, 65010, BIG_AS, 65536]),
+        r.pick(HOLDS), b(r), b(r, 1, 6), b(r), opt_num(r, CLUSTERS, 3), down,
+        gen_fams(r), gen_sm(r, [IPV4, IPV6, VPN4]),
+        pairs([(r.pick(FAMS2 + [VPN4]), r.pick([0, 1, 10, 1000, 4294967295])) for _ in range(r.pick([0, 0, 1, 2]))]),
         gen_gr(r), gen_llgr(r), pol,
         "none" if grp is None else "(some %s)" % grp)
     return dict(exp=exp, down=(down == "t"), ok=("px" not in pol)), text
@@ -353,7 +373,7 @@ def gen_hist(r):
         t, nets, asn = gen_group(r, n)
         gtexts.append(t); gnets.append(nets); gasn.append(asn)
     npeers = r.pick([0, 1, 1, 2, 3])
-    paddrs = [r.pick(ADDRS) for _ in range(npeers)]   # duplicates on purpose (second add fails)
+    paddrs = [r.pick(ADDRS + [ADDRS[-1]]) for _ in range(npeers)]   # duplicates on purpose (second add fails); ::1 twice as likely
     pp = [gen_peer(r, a, gnames) for a in paddrs]
     peers = [t for _, t in pp]
     # a rough prediction of what the daemon will do, only to aim operations at sessions that exist
@@ -407,8 +427,8 @@ def gen_hist(r):
             if ta in known_dyn and not any(k2[0] == ta for k2 in slots):
                 known_dyn.pop(ta)
             if r.chance(2, 5):
-                asn = (exp or 65002) if r.chance(2, 3) else r.pick([65001, 65002, 65003, 65009, 65000, 4200000001])
-                ops.append("(discx %d %d %d)" % (sid, asn, r.pick([90, 90, 0, 3, 30])))
+                asn = (exp or r.pick([65002, BIG_AS, 65536])) if r.chance(2, 3) else r.pick([65001, 65002, 65003, 65009, 65000] + AS_EDGE)
+                ops.append("(discx %d %d %d)" % (sid, asn, r.pick([90, 90, 0, 3, 30, 65535])))
             else:
                 ops.append("(disc %d)" % sid)
         else:
@@ -435,7 +455,7 @@ def gen_hist(r):
                 static[ta]["down"] = False
             ops.append("(%s %s)" % (op, ip(a)))
     return "(hist (global %d %d %s) (groups %s) (peers %s) (ops %s))" % (
-        r.pick([65001, 65001, 65002]), r.pick([16843009, 1]), confed, " ".join(gtexts), " ".join(peers), " ".join(ops))
+        r.pick([65001, 65001, 65002, 65001, 65002, BIG_AS, 65535, 65536]), r.pick([16843009, 1, 3758096383]), confed, " ".join(gtexts), " ".join(peers), " ".join(ops))
 
 
 def gen_malformed(r):
@@ -461,6 +481,246 @@ def gen_case(r):
     return {"neg": gen_neg, "negap": gen_neg_addpath_pair, "negsys": gen_neg_systematic, "contains": gen_contains, "hist": gen_hist, "bad": gen_malformed}[k](r)
 
 
+# ---------------------------------------------------------------- the boundary suite (part of EVERY run, seed-independent)
+def flip(bs, pos):
+    bs = list(bs)
+    bs[pos // 8] ^= 1 << (7 - pos % 8)
+    return bs
+
+
+def suite_contains():
+    out = []
+    for base in ([127, 0, 2, 9], [0x20, 1, 0x0d, 0xb8] + [0] * 11 + [1]):
+        bits = 8 * len(base)
+        for m in [0, 1, 7, 8, 9, 12, 16, bits - 9, bits - 8, bits - 7, bits - 1, bits, bits + 1, 255]:
+            out.append("(contains (net %s %d) (ip %s))" % (hexb(base), m, hexb(base)))
+            if 1 <= m <= bits:
+                out.append("(contains (net %s %d) (ip %s))" % (hexb(base), m, hexb(flip(base, m - 1))))   # last covered bit
+            if m < bits:
+                out.append("(contains (net %s %d) (ip %s))" % (hexb(base), m, hexb(flip(base, m))))       # first uncovered bit
+                out.append("(contains (net %s %d) (ip %s))" % (hexb(flip(base, m)), m, hexb(base)))       # host bit set in the prefix
+        out.append("(contains (net %s 8) (ip %s))" % (hexb(base), hexb([127, 0, 0, 1] if len(base) == 16 else [0] * 15 + [1])))
+    return out
+
+
+def suite_neg():
+    out = []
+    f = IPV4
+    for a in range(4):
+        for b_ in range(4):
+            out.append("(neg ((mp %d) (addpath (%d %d))) ((mp %d) (addpath (%d %d))) (sm (%d 4)))" % (f, f, a, f, f, b_, f))
+    for a, b_ in [(4, 3), (3, 7), (255, 255), (5, 1)]:
+        out.append("(neg ((mp %d) (addpath (%d %d))) ((mp %d) (addpath (%d %d))) (sm (%d 2)))" % (f, f, a, f, f, b_, f))
+    out += [
+        # add-path: family listed twice (last wins), family without MultiProtocol, two capabilities
+        "(neg ((mp 65537) (addpath (65537 3) (65537 0))) ((mp 65537) (addpath (65537 3))) (sm (65537 2)))",
+        "(neg ((mp 65537) (addpath (65537 0)) (addpath (65537 3))) ((mp 65537) (addpath (65537 1))) (sm (65537 2) (65537 4)))",
+        "(neg ((mp 65537) (addpath (131073 3))) ((mp 65537) (mp 131073) (addpath (131073 3))) (sm (131073 2)))",
+        "(neg ((mp 65537) (mp 65537)) ((mp 65537)) (sm))",
+        "(neg () ((mp 65537)) (sm (65537 1)))", "(neg ((mp 65537)) () (sm))", "(neg ((mp 65537)) ((mp 131073)) (sm (65537 1)))",
+        "(neg ((mp 65537) (mp 65664) (mp 65538) (mp 131073)) ((mp 131073) (mp 65538) (mp 65664) (mp 65537)) (sm))",
+        # extended next hop
+        "(neg ((mp 65537) (enh (65537 2))) ((mp 65537) (enh (65537 2))) (sm))",
+        "(neg ((mp 65537) (enh (65537 2))) ((mp 65537)) (sm))", "(neg ((mp 65537)) ((mp 65537) (enh (65537 2))) (sm))",
+        "(neg ((mp 65537) (enh (65537 1))) ((mp 65537) (enh (65537 2))) (sm))", "(neg ((mp 65537) (enh (65537 3))) ((mp 65537) (enh (65537 3))) (sm))",
+        "(neg ((mp 131073) (enh (131073 2))) ((mp 131073) (enh (131073 2))) (sm))",
+        "(neg ((mp 65537) (enh (65664 2))) ((mp 65537) (enh (65664 2))) (sm))",
+        "(neg ((mp 65537) (mp 65664) (enh (65664 2))) ((mp 65537) (mp 65664) (enh (65664 2))) (sm))",
+        "(neg ((mp 65537) (mp 65664) (enh (65664 2) (65537 2))) ((mp 65537) (mp 65664) (enh (65537 2)) (enh (65664 2))) (sm))",
+        "(neg ((mp 65537) (mp 65664) (enh (65537 2))) ((mp 65537) (mp 65664) (enh (65664 2))) (sm))",
+        # extended message, 4-octet AS
+        "(neg ((mp 65537) extmsg) ((mp 65537)) (sm))", "(neg ((mp 65537) extmsg) ((mp 65537) extmsg) (sm))",
+        "(neg ((mp 65537) (as4 0)) ((mp 65537) (as4 4294967295)) (sm))", "(neg ((mp 65537) (as4 23456)) ((mp 65537)) (sm))",
+        "(neg ((mp 65537) (as4 65535)) ((mp 65537) (as4 65536)) (sm))", "(neg ((mp 65537) (as4 4200000001) (as4 65001)) ((mp 65537) (as4 65002)) (sm))",
+        # graceful restart
+        "(neg ((mp 65537) (gr 4 0 ((65537 0)))) ((mp 65537) (gr 4 4095 ((65537 128)))) (sm))",
+        "(neg ((mp 65537) (gr 4 90 ((65537 0)))) ((mp 65537) (gr 0 90 ((65537 0)))) (sm))",
+        "(neg ((mp 65537) (gr 8 90 ((65537 0)))) ((mp 65537) (gr 12 90 ((65537 0)))) (sm))",
+        "(neg ((mp 65537) (gr 255 90 ((65537 0) (131073 0)))) ((mp 65537) (gr 255 120 ((131073 128)))) (sm))",
+        "(neg ((mp 65537) (gr 4 90 ((65537 0)))) ((mp 65537) (gr 4 90 ((131073 0)))) (sm))",
+        "(neg ((mp 65537) (gr 4 90 ())) ((mp 65537) (gr 4 90 ((65537 0)))) (sm))",
+        "(neg ((mp 65537) (gr 4 90 ((65537 0)))) ((mp 65537)) (sm))",
+        "(neg ((mp 65537) (gr 0 90 ()) (gr 4 120 ((65537 0)))) ((mp 65537) (gr 4 120 ((65537 0)))) (sm))",
+        "(neg ((mp 65537) (gr 4 90 ((65537 0) (65537 128)))) ((mp 65537) (gr 4 90 ((65537 0)))) (sm))",
+        # long-lived graceful restart
+        "(neg ((mp 65537) (llgr (65537 0 0))) ((mp 65537) (llgr (65537 0 0))) (sm))",
+        "(neg ((mp 65537) (llgr (65537 0 600))) ((mp 65537) (llgr (65537 0 0))) (sm))",
+        "(neg ((mp 65537) (llgr (65537 0 0))) ((mp 65537) (llgr (65537 128 16777215))) (sm))",
+        "(neg ((mp 65537) (llgr (65537 0 1))) ((mp 65537) (llgr (65537 0 16777215))) (sm))",
+        "(neg ((mp 65537) (llgr (65537 0 1))) ((mp 65537) (llgr (65537 0 2))) (sm))",
+        "(neg ((mp 65537) (llgr (65537 0 600) (131073 0 1))) ((mp 65537) (mp 131073) (llgr (131073 0 1) (65537 0 1))) (sm))",
+        "(neg ((mp 65537) (gr 4 1 ((65537 0)))) ((mp 65537) (gr 4 4094 ((65537 0)))) (sm))",
+        "(neg ((mp 65537) (llgr (65537 0 0) (65537 0 600))) ((mp 65537) (llgr (65537 0 0))) (sm))",
+        "(neg ((mp 65537) (llgr (65537 0 600) (65537 0 0))) ((mp 65537) (llgr (65537 0 0) (65537 0 5))) (sm))",
+        "(neg ((mp 65537) (llgr) (llgr (65537 0 600))) ((mp 65537) (llgr (65537 0 600))) (sm))",
+        "(neg ((mp 65537) (llgr (65537 0 600))) ((mp 65537) (llgr (131073 0 600))) (sm))",
+        "(neg ((mp 65537) (llgr (65537 0 600))) ((mp 65537)) (sm))",
+        # send-max
+        "(neg ((mp 65537) (addpath (65537 2))) ((mp 65537) (addpath (65537 1))) (sm (65537 0)))",
+        "(neg ((mp 65537) (addpath (65537 2))) ((mp 65537) (addpath (65537 1))) (sm (65537 1)))",
+        "(neg ((mp 65537) (addpath (65537 2))) ((mp 65537) (addpath (65537 1))) (sm (65537 255)))",
+        "(neg ((mp 65537) (addpath (65537 2))) ((mp 65537) (addpath (65537 1))) (sm (65537 256)))",
+        "(neg ((mp 65537) (addpath (65537 2))) ((mp 65537) (addpath (65537 1))) (sm (65537 2) (65537 9)))",
+        "(neg ((mp 65537) (addpath (65537 2))) ((mp 65537) (addpath (65537 2))) (sm (65537 4)))",
+        "(neg ((mp 65537) (addpath (65537 1))) ((mp 65537) (addpath (65537 2))) (sm (65537 4)))",
+        "(neg ((mp 65537) (addpath (65537 3))) ((mp 65537) (addpath (65537 3))) (sm (131073 4)))",
+        "(neg ((mp 65537) (unk 3 x) (unk 255 x0102) rr err fqdn) ((mp 65537) (unk 66 x00)) (sm))",
+    ]
+    return out
+
+
+V4A, V4B, V6A = [127, 0, 0, 5], [127, 0, 2, 9], [0] * 15 + [1]
+
+
+def speer(addr=V4A, exp=65002, lasn=0, hold=180, passive="f", rs="f", rr="f", cluster="none", down="f",
+          fams="", sm="", pl="", gr="none", llgr="none", pol="none", group="none"):
+    return "(peer %s %d %d %d %s %s %s %s %s (fams %s) (sm %s) (pl %s) %s %s %s %s)" % (
+        ip(addr), exp, lasn, hold, passive, rs, rr, cluster, down, fams, sm, pl, gr, llgr, pol, group)
+
+
+def sgroup(name="g1", asn=65002, lasn=0, hold="none", passive="f", rs="f", rr="f", cluster="none",
+           fams="", sm="", gr="none", llgr="none", nets=()):
+    return "(group %s %d %d %s %s %s %s %s (fams %s) (sm %s) %s %s (nets %s))" % (
+        name, asn, lasn, hold, passive, rs, rr, cluster, fams, sm, gr, llgr,
+        " ".join("(net %s %d)" % (hexb(n), m) for n, m in nets))
+
+
+def shist(peers=(), groups=(), ops=(), asn=65001, rid=16843009, confed="none"):
+    return "(hist (global %d %d %s) (groups %s) (peers %s) (ops %s))" % (
+        asn, rid, confed, " ".join(groups), " ".join(peers), " ".join(ops))
+
+
+def est(addr, asn, role="P", hold=90, sid=0):
+    """connect, then the remote end answers with an OPEN carrying `asn`"""
+    return ["(connect %s %s)" % (ip(addr), role), "(discx %d %d %d)" % (sid, asn, hold)]
+
+
+def suite_hist():
+    out = []
+    CONF_IN, CONF_OUT, CONF_EMPTY = "(some (65000 (65001 65002)))", "(some (65000 (65002 65003)))", "(some (65000 ()))"
+    # --- one configured neighbour, one parameter at its boundary, session taken to Established
+    famsets = ["", "(65537 0)", "(131073 0)", "(65609 0)", "(65609 1) (65664 0)", "(65537 3) (65664 1) (131073 2)",
+               "(65537 0) (65537 3)", "(65609 2) (131073 0)"]
+    for addr in (V4A, V6A):
+        for fs in famsets:
+            out.append(shist([speer(addr, fams=fs, sm="(65537 255) (65664 1)")], ops=est(addr, 65002)))
+    for hold in (0, 3, 4, 180, 65534, 65535):
+        for rh in (0, 3, 90, 65535):
+            out.append(shist([speer(hold=hold)], ops=est(V4A, 65002, hold=rh)))
+    for gasn in (65001, 65535, 65536, 23456, BIG_AS):
+        for exp in (gasn, 65002, 65535, 65536, 23456, BIG_AS, BIG_AS + 1):
+            out.append(shist([speer(exp=exp, rr="t", cluster="(some 0)")], asn=gasn, ops=est(V4A, exp) + est(V4A, exp + 1, "A", sid=1)))
+    for exp in (65002, 23456, 65535, 65536, BIG_AS):          # a remote AS that agrees only in its low / high 16 bits
+        for d in (65536, 1, 4294901760 - (exp & 0xffff0000)):
+            other = (exp + d) % 4294967296
+            if other not in (0, exp):
+                out.append(shist([speer(exp=exp)], ops=est(V4A, other)))
+    for lasn in (0, 65001, 65010, 65535, 65536, BIG_AS):
+        for exp in (65002, 65010, BIG_AS):
+            for confed in ("none", CONF_IN, CONF_OUT):
+                out.append(shist([speer(exp=exp, lasn=lasn)], confed=confed, ops=est(V4A, exp)))
+    # roles: every arm of the derivation, static
+    for confed in ("none", CONF_IN, CONF_OUT, CONF_EMPTY):
+        for exp in (65001, 65002, 65003, 65000, 65009):
+            for rs, rr in (("f", "f"), ("t", "f"), ("f", "t"), ("t", "t")):
+                out.append(shist([speer(exp=exp, rs=rs, rr=rr, cluster="(some 4294967295)" if exp == 65001 else "none")],
+                                 confed=confed, ops=est(V4A, exp, "A")))
+    for cl in ("none", "(some 0)", "(some 1)", "(some 4294967295)"):
+        for rr in "tf":
+            out.append(shist([speer(exp=65001, rr=rr, cluster=cl)], rid=3758096383, ops=est(V4A, 65001)))
+    for gr in ("(some (0 t (65537)))", "(some (4095 f (65537 131073)))", "(some (1 t ()))", "(some (120 t (65664 65609)))"):
+        for ll in ("none", "(some ((65537 0)))", "(some ((65537 16777215) (131073 1)))", "(some ())", "(some ((65537 600) (65537 0)))"):
+            out.append(shist([speer(fams="(65537 0) (131073 0)", gr=gr, llgr=ll)], ops=est(V4A, 65002)))
+    for pl in ("(65537 0)", "(65537 1)", "(65537 4294967295) (131073 10)", "(65537 5) (65537 6)"):
+        out.append(shist([speer(pl=pl)], ops=est(V4A, 65002)))
+    for pol in ("none", "(some (accept ()))", "(some (reject ()))", "(some (accept (p1)))", "(some (reject (p2 p1)))",
+                "(some (accept (p1 p1)))", "(some (accept (px)))", "(some (reject (p1 px)))"):
+        out.append(shist([speer(pol=pol)], ops=est(V4A, 65002)))
+    # admin-down neighbour: refused in both directions, then enabled; disable with 0 / 1 / 2 connections
+    out.append(shist([speer(down="t")], ops=["(connect %s P)" % ip(V4A), "(connect %s A)" % ip(V4A), "(enable %s)" % ip(V4A)] + est(V4A, 65002)))
+    for op in ("enable", "disable", "delete", "shutdown", "reset"):
+        for pre in ([], ["(connect %s P)" % ip(V4A)], ["(connect %s P)" % ip(V4A), "(connect %s A)" % ip(V4A)]):
+            for down in "ft":
+                ops = (["(enable %s)" % ip(V4A)] if down == "t" and pre else []) + pre + \
+                      (["(disable %s)" % ip(V4A)] if down == "t" and pre and op != "disable" else []) + \
+                      ["(%s %s)" % (op, ip(V4A)), "(connect %s P)" % ip(V4A), "(disc 0)", "(disc 1)", "(disc 2)", "(connect %s P)" % ip(V4A)]
+                out.append(shist([speer(down=down)], ops=ops))
+            out.append(shist([], ops=["(%s %s)" % (op, ip(V4A))]))
+    # same direction twice, other direction, unknown session ids
+    out.append(shist([speer()], ops=["(connect %s P)" % ip(V4A)] * 2 + ["(connect %s A)" % ip(V4A)] * 2 + ["(disc 5)", "(disc 1)", "(disc 0)", "(disc 0)"]))
+    out.append(shist([speer(), speer(exp=65003)], ops=["(connect %s P)" % ip(V4A)]))          # the same address twice
+    # --- peer groups: every fallback of apply_peer_group taken / not taken
+    gfull = dict(asn=65003, lasn=65010, passive="t", rs="t", rr="t", cluster="(some 0)", fams="(65537 3) (131073 1)",
+                 sm="(65537 255)", gr="(some (4095 t (65537)))", llgr="(some ((65537 16777215)))")
+    for gh in ("none", "(some 0)", "(some 3)", "(some 180)", "(some 65535)", "(some 90)"):
+        for ph in (180, 0, 3, 65535):
+            out.append(shist([speer(exp=0, hold=ph, group="(some g1)")], [sgroup(hold=gh, **gfull)], ops=est(V4A, 65003)))
+    out.append(shist([speer(exp=0, group="(some g1)")], [sgroup(asn=0)], ops=est(V4A, 65002)))            # both 0: any AS
+    out.append(shist([speer(exp=65002, lasn=65011, hold=30, passive="t", rs="t", rr="t", cluster="(some 1)", fams="(131073 0)",
+                            sm="(131073 2)", gr="(some (90 f (131073)))", llgr="(some ((131073 5)))", group="(some g1)")],
+                     [sgroup(hold="(some 90)", **gfull)], ops=est(V4A, 65002)))                         # nothing inherited
+    out.append(shist([speer(exp=65002, cluster="(some 1)", sm="(65537 9)", group="(some g1)")],
+                     [sgroup(hold="(some 90)", **gfull)], ops=est(V4A, 65002)))                         # own cluster id replaced, own send-max dropped
+    out.append(shist([speer(exp=0, group="(some gx)")], [sgroup()], ops=est(V4A, 65002)))                # group that does not exist
+    out.append(shist([speer(exp=0, group="(some g1)")], [sgroup(asn=65002), sgroup(asn=65003)], ops=est(V4A, 65003)))   # later definition wins
+    # --- dynamic neighbours: addresses at the edges of the prefix, every role, the life cycle
+    edge = [(([127, 0, 2, 8], 29), [[127, 0, 2, 8], [127, 0, 2, 15], [127, 0, 2, 7], [127, 0, 2, 16]]),
+            (([127, 0, 2, 9], 32), [[127, 0, 2, 9], [127, 0, 2, 8], [127, 0, 2, 10]]),
+            (([127, 0, 2, 9], 31), [[127, 0, 2, 8], [127, 0, 2, 9], [127, 0, 2, 10], [127, 0, 2, 7]]),
+            (([127, 0, 2, 0], 23), [[127, 0, 3, 254], [127, 0, 2, 1], [127, 0, 4, 1], [127, 0, 1, 254]]),
+            (([127, 0, 0, 0], 8), [[127, 255, 255, 254], [127, 0, 0, 1]]),
+            (([127, 128, 0, 0], 9), [[127, 128, 0, 1], [127, 127, 255, 254]]),
+            (([0, 0, 0, 0], 0), [[127, 9, 9, 9], V6A]), (([0, 0, 0, 0], 1), [[127, 0, 0, 1]]), (([128, 0, 0, 0], 1), [[127, 0, 0, 1]]),
+            (([10, 0, 0, 0], 8), [[127, 0, 0, 1]]),
+            (([0] * 16, 0), [V6A, [127, 0, 0, 1]]), (([0] * 15 + [1], 128), [V6A]), (([0] * 15 + [0], 127), [V6A]), (([0] * 15 + [2], 127), [V6A]),
+            (([0] * 16, 64), [V6A]), (([0] * 16, 120), [V6A]), (([0] * 14 + [1, 0], 120), [V6A]), (([0] * 16, 1), [V6A]), (([128] + [0] * 15, 1), [V6A]),
+            (([0] * 15 + [0], 121), [V6A]), (([0] * 15 + [3], 127), [V6A])]
+    for net, addrs in edge:
+        for a in addrs:
+            out.append(shist([], [sgroup(fams="(65537 1)" if len(a) == 16 else "", nets=[net])], ops=est(a, 65002)))
+    for confed in ("none", CONF_IN, CONF_OUT):
+        for gasn in (0, 65001, 65002, 65003, 65000, BIG_AS):
+            for rs, rr in (("f", "f"), ("t", "f"), ("f", "t")):
+                out.append(shist([], [sgroup(asn=gasn, rs=rs, rr=rr, cluster="(some 0)" if rr == "t" else "none", nets=[([127, 0, 0, 0], 8)])],
+                                 confed=confed, ops=est(V4B, gasn or BIG_AS)))
+    for gasn, glasn, gcl, gf, ggr, gll in [
+            (65535, BIG_AS, "(some 4294967295)", "(65537 0) (65537 0)", "(some (0 f ()))", "(some ())"),
+            (65536, 65536, "(some 16909060)", "(131073 0)", "(some (0 f (65537)))", "(some ((65537 0) (65537 0)))"),
+            (23456, 0, "none", "(65609 0)", "none", "(some ((65537 0)))"),
+            (23456, 0, "(some 1)", "(65609 1) (131073 0)", "none", "none")]:
+        for rr in "tf":
+            out.append(shist([speer(V4A, exp=0, group="(some g1)", sm="(65537 0)")],
+                             [sgroup(asn=gasn, lasn=glasn, rr=rr, cluster=gcl, fams=gf, gr=ggr, llgr=gll, nets=[(V4B, 32)])],
+                             ops=est(V4B, gasn) + est(V4A, gasn, sid=1)))
+    out.append(shist([speer(V4A), speer(V4B), speer([127, 0, 0, 6], exp=65003), speer(V6A)], ops=est(V6A, 65002)))
+    for gh in ("none", "(some 0)", "(some 3)", "(some 180)", "(some 65535)"):
+        out.append(shist([], [sgroup(hold=gh, lasn=65010, nets=[(V4B, 32)], **{k: v for k, v in gfull.items() if k not in ("asn", "lasn")})], ops=est(V4B, 65002)))
+    c = lambda a, r: "(connect %s %s)" % (ip(a), r)
+    dyn = [sgroup(nets=[([127, 0, 2, 0], 24), (V6A, 128)])]
+    out.append(shist([], dyn, ops=[c(V4B, "P"), c(V4B, "P"), c(V4B, "A"), c(V4B, "A"), "(disc 0)", c(V4B, "P"), "(disc 1)", "(disc 2)", c(V4B, "A"), "(discx 3 65002 90)"]))
+    out.append(shist([], dyn, ops=[c(V6A, "A"), c(V6A, "P"), "(discx 1 65002 0)", "(discx 0 65003 90)", c(V6A, "P"), "(disc 2)"]))
+    for op in ("enable", "disable", "delete", "shutdown", "reset"):
+        for pre in ([c(V4B, "P")], [c(V4B, "P"), c(V4B, "A")]):
+            out.append(shist([], dyn, ops=pre + ["(%s %s)" % (op, ip(V4B)), "(disc 0)", "(disc 1)", c(V4B, "P"), "(disc 2)", "(%s %s)" % (op, ip(V4B))]))
+    # a static neighbour inside a dynamic prefix stays static; deleting it makes the address dynamic
+    out.append(shist([speer(V4B, exp=65003, down="t")], dyn, ops=[c(V4B, "P"), "(delete %s)" % ip(V4B), c(V4B, "P"), "(discx 0 65002 90)"]))
+    # several groups cover the address / the same prefix in two groups
+    out.append(shist([], [sgroup("g1", nets=[([127, 0, 2, 0], 24)]), sgroup("g2", asn=65003, nets=[(V4B, 32)])], ops=[c(V4B, "P"), c(V4A, "P")]))
+    out.append(shist([], [sgroup("g1", nets=[(V4B, 32)]), sgroup("g2", nets=[(V4B, 32)]), sgroup("g3", nets=[(V4B, 32)])], ops=[c(V4B, "A")]))
+    return out
+
+
+_SUITE = None
+
+
+def boundary_suite():
+    global _SUITE
+    if _SUITE is None:
+        _SUITE = suite_contains() + suite_neg() + suite_hist()
+    return _SUITE
+
+
 def gen(seed, n, tier):
     r = Rng(seed * 1000003 + 16)
-    return [gen_case(r) for _ in range(n)]
+    suite = boundary_suite()
+    return suite + [gen_case(r) for _ in range(max(n - len(suite), n // 2))]
